@@ -228,31 +228,48 @@ func buildMsg(small bool) *dns.Msg {
 	m.RecursionDesired = true
 	m.Compress = true
 	m.Rcode = dns.RcodeBadVers // an extended RCODE: Pack writes its upper bits into the OPT header
-	m.Question = []dns.Question{{Name: "Host.Example.ORG.", Qtype: dns.TypeMX, Qclass: dns.ClassINET}}
+	// the answer RRset: lower-case owner (no header rewrite when signing), mixed-case RDATA names
+	m.Question = []dns.Question{{Name: "host.example.org.", Qtype: dns.TypeMX, Qclass: dns.ClassINET}}
 	for i := 0; i < 2; i++ {
 		mx := &dns.MX{}
 		rw.Populate(mx, dns.TypeMX)
+		rw.LowerOwner(mx)
 		mx.Preference = uint16(10 * (i + 1))
 		mx.Mx = "Mail" + strconv.Itoa(i) + ".Example.ORG."
 		m.Answer = append(m.Answer, mx)
 	}
 	var opt dns.RR
 	n := 0
-	for _, k := range allKinds {
-		rr := k.Build()
-		if k.Type == dns.TypeOPT {
-			opt = rr
-			continue
-		}
-		if small && k.Type != dns.TypeAAAA && k.Type != dns.TypeAPL && k.Type != dns.TypeSVCB && k.Type != dns.TypeNSEC && k.Type != dns.TypeTXT {
-			continue
-		}
+	put := func(rr dns.RR) {
 		if n%2 == 0 {
 			m.Ns = append(m.Ns, rr)
 		} else {
 			m.Extra = append(m.Extra, rr)
 		}
 		n++
+	}
+	for _, k := range allKinds {
+		rr := k.Build()
+		pick := k.Type == dns.TypeAAAA || k.Type == dns.TypeAPL || k.Type == dns.TypeSVCB || k.Type == dns.TypeNSEC || k.Type == dns.TypeTXT
+		switch k.Type {
+		case dns.TypeOPT, dns.TypeSVCB, dns.TypeHTTPS, dns.TypeAPL:
+			rw.Unsort(rr) // hand-built order: parameters, options, prefixes not sorted
+		}
+		if k.Type == dns.TypeOPT {
+			opt = rr
+			continue
+		}
+		if small && !pick {
+			continue
+		}
+		put(rr)
+		if pick { // and with zero-length fields (len 0, cap > 0) wherever the record still packs and unpacks
+			for _, v := range rw.Variants(k) {
+				if strings.HasSuffix(v.Name, "#emptycap") && v.BuildWire != nil {
+					put(v.BuildWire())
+				}
+			}
+		}
 	}
 	m.Extra = append(m.Extra, opt)
 	return m
@@ -264,22 +281,55 @@ func buildMsg(small bool) *dns.Msg {
 type tcase struct {
 	name   string
 	build  func() object
+	wire   func() object // the instance whose packing is the Unpack input (nil: build)
+	base   func() object // fully populated instance of the same kind (fallback Unpack input)
 	unpack func(buf []byte) (object, error)
+}
+
+// wireInput is the buffer the case's Unpack operations decode: the packing of the wire
+// instance, of the instance itself, or (a variant the library refuses to pack or to read
+// back, e.g. an unsorted type bitmap) of the fully populated instance of the kind.
+func (tc *tcase) wireInput() []byte {
+	var cands []func() object
+	if tc.wire != nil {
+		cands = append(cands, tc.wire)
+	}
+	cands = append(cands, tc.build)
+	if tc.base != nil {
+		cands = append(cands, tc.base)
+	}
+	for _, f := range cands {
+		if b, err := f().Pack(); err == nil {
+			if _, err := tc.unpack(b); err == nil {
+				return b
+			}
+		}
+	}
+	hx.Die("case %s: no instance packs and unpacks", tc.name)
+	return nil
 }
 
 func cases() []tcase {
 	var cs []tcase
-	for _, k := range allKinds {
-		k := k
-		cs = append(cs, tcase{name: k.Name,
-			build: func() object { return &rrObj{k.Build()} },
-			unpack: func(buf []byte) (object, error) {
-				rr, _, err := dns.UnpackRR(buf, 0)
-				if err != nil {
-					return nil, err
-				}
-				return &rrObj{rr}, nil
-			}})
+	for _, k0 := range allKinds {
+		k0 := k0
+		for _, k := range rw.Variants(k0) {
+			k := k
+			tc := tcase{name: k.Name,
+				build: func() object { return &rrObj{k.Build()} },
+				base:  func() object { return &rrObj{k0.Build()} },
+				unpack: func(buf []byte) (object, error) {
+					rr, _, err := dns.UnpackRR(buf, 0)
+					if err != nil {
+						return nil, err
+					}
+					return &rrObj{rr}, nil
+				}}
+			if k.BuildWire != nil {
+				tc.wire = func() object { return &rrObj{k.BuildWire()} }
+			}
+			cs = append(cs, tc)
+		}
 	}
 	for _, ct := range []bool{false, true} {
 		ct := ct
@@ -385,10 +435,7 @@ func (r *runner) mis(key, what string, tc *tcase, v *vector, k int) {
 func (r *runner) episode(tc *tcase, v *vector) {
 	objs := map[int]object{1: tc.build()}
 	how := map[int]string{1: "built"} // how each object was obtained (names findings; never judges)
-	buf, err := objs[1].Pack()
-	if err != nil {
-		hx.Die("case %s: the populated instance does not pack: %v", tc.name, err)
-	}
+	buf := tc.wireInput()
 	bufSaved := append([]byte(nil), buf...)
 	snaps := map[int]*rw.Snap{1: rw.Walk(objs[1].Root())}
 	live := []int{1}
@@ -776,10 +823,7 @@ func record(out string, episodes int) {
 		rc.table, rc.nextReg = nil, 0
 		keep = keep[:0]
 		objs := map[int]object{1: tc.build()}
-		buf, err := objs[1].Pack()
-		if err != nil {
-			hx.Die("case %s does not pack: %v", tc.name, err)
-		}
+		buf := tc.wireInput()
 		valid := true
 		rc.emit(&event{Ev: "reset", T: tc.name}, objs, buf)
 		nops := 4 + rng.Intn(5)
